@@ -10,7 +10,7 @@ def State.static (s : State) : Static := { need := s.need, hasXq := s.hasXq, has
 
 /-- run a per-request handler on a live request and write the result back -/
 def withReq (s : State) (r : Req) (f : Ctx → M Ctx) : M (State × List Bytes) := do
-  let c ← f { req := r, svcs := s.svcs, rules := s.rules, stats := s.stats }
+  let c ← f { req := r, svcs := s.svcs, rules := s.rules, stats := s.stats, lim := s.lim }
   let reqs := if c.gone then removeReq r.client s.reqs else putReq c.req s.reqs
   pure ({ s with reqs := reqs, svcs := c.svcs, rules := c.rules, stats := c.stats }, c.out)
 
